@@ -43,6 +43,8 @@ EXTRA_THEOREMS = [
     # the translator's condition dictionary (Thm/C01Cond.lean): syntactic => semantic
     "DE.eval_congr", "indep_of_cols_disjoint", "readsWithin_of_cols_subset", "indepB_of_cols_disjoint",
     "readsWithinB_of_cols_subset", "depend_on_is_only_syntactic",
+    # regression statements for removed rules (/repo bf65f8a)
+    "and_null_not_equivalence", "or_null_not_equivalence",
 ]
 RULES_JSON = os.path.join(vlib.LEAN, "RlModel/Gen/rules.json")
 DOM = {"N": ["null", "n:0", "n:1", "n:-1", "n:2", "n:3", "n:-2"],
